@@ -85,7 +85,7 @@ _FPAT = [
     [1e5, -2.5, 0.1, -1e5, 0.3],
     [-3.0, -0.5, -7.0],
 ]
-_IPAT = [[-2, -1, 0, 1, 2, 3, 7, -5], [0], [1, -1], [10000, -3, 4], [-3, -1, -7]]
+_IPAT = [[-2, -1, 0, 1, 2, 3, 7, -5], [0], [1, -1], [40, -3, 4], [-3, -1, -7]]  # no huge ints: they size tensors
 _UPAT = [[0, 1, 2, 3, 250, 255, 7, 128], [0], [1, 255], [200, 3, 4], [5, 6, 7]]
 N_VALUATIONS = len(_FPAT)
 
@@ -578,13 +578,13 @@ def _table():
     SPL = [i(1), i(2), i([1, 1]), i([2, 1]), i([1, 2]), i(3), i([3])]  # scalar 0 crashes onnx shape inference (SIGFPE)
     for tag, at in (("d", {}), ("a1", {"axis": 1}), ("a1k0", {"axis": 1, "keepdims": 0}), ("am1", {"axis": -1}),
                     ("a0k0", {"axis": 0, "keepdims": 0})):
-        _add("SplitToSequence", "xs." + tag, ("F2", "F3"), "Q", ["P", SPL], roles=["split"], attrs=at)
-        _add("SplitToSequence", "x." + tag, ("F2", "F3"), "Q", ["P"], attrs=at)
+        _add("SplitToSequence", "xs." + tag, ("F2", "F3"), "Q", ["P", SPL], roles=["split"], attrs=at, opsets=(18, 13, 12))
+        _add("SplitToSequence", "x." + tag, ("F2", "F3"), "Q", ["P"], attrs=at, opsets=(18, 13, 12))
     PS = [i(0), i(1), i(-1), i([0]), i(5), T("i32", 1), i(2), i(-2)]
     _add("SequenceAt", "qp", ("Q",), "F2", ["P", PS], roles=["position"])
     for tag, at in (("a0", {"axis": 0}), ("a1", {"axis": 1}), ("a0n", {"axis": 0, "new_axis": 1}),
                     ("a1n", {"axis": 1, "new_axis": 1}), ("am1n", {"axis": -1, "new_axis": 1}), ("am1", {"axis": -1})):
-        _add("ConcatFromSequence", tag, ("Q",), "F2", ["P"], attrs=at)
+        _add("ConcatFromSequence", tag, ("Q",), "F2", ["P"], attrs=at, opsets=(18, 13, 12))
     _add("SequenceLength", "q", ("Q",), "S0", ["P"])
     _add("Identity", "q", ("Q",), "Q", ["P"])
     _add("SequenceInsert", "qc", ("Q",), "Q", ["P", [f([[7.0, 8.0, 9.0]])]], roles=["tensor"])
